@@ -13,8 +13,10 @@ RULE = ("breadth-first exploration of the state (low byte of the group's "
         "loop counter, multiset of <= 3 in-flight frames each with its "
         "index byte, writer commands and counter classes, output-enabled "
         "flag, run of consecutive passes without the group program) under "
-        "deliveries in any order, losses and fresh injections, to depth 8 "
-        "(quick) / 12 (thorough) from several start counters, for group "
+        "deliveries in any order, losses and fresh injections, to depth 11 "
+        "(quick) / 16 (thorough) from several start counters with at most "
+        "three frames in flight, and from EVERY value of the counter byte "
+        "with at most two frames in flight, for group "
         "layouts with 0-3 writer datagrams (direct and FMMU) and for a group "
         "that is registered / not registered / has an index >= MAX_PROGS; "
         "plus random foreign frames. Every transition executes the real "
@@ -25,15 +27,18 @@ ASSUMPTIONS = ["the per-group loop counter matters only through its low "
                "byte (the only part the dispatcher reads)",
                "frames of an unregistered group are not re-injected while "
                "they circulate (weaker reading, see DESIGN)",
-               "'frames pass without running the program' counts frames "
-               "sent back to the bus; superfluous frames handed to user "
-               "space do not extend the run (weaker reading, see DESIGN)"]
+               "two readings of 'frames pass without running the program' "
+               "are monitored: frames sent back to the bus (bound 2 in every "
+               "history) and every frame the dispatcher handles (bound 2 "
+               "with at most two frames in flight; with three in flight the "
+               "pinned code reaches 3, a recorded finding, and 4 would be a "
+               "violation)"]
 MIN_EVALUATIONS = {"quick": 1, "thorough": 1}
 LAYOUTS = ["r", "w", "rw", "f", "wf", "ww", "wwf", "rf"]
 
 
 def plan(tier, seed):
-    depth = 8 if tier == "quick" else 16
+    depth = 11 if tier == "quick" else 16
     shards = []
     for i, lay in enumerate(LAYOUTS):
         for reg in ("registered", "unregistered", "bigindex"):
@@ -41,6 +46,13 @@ def plan(tier, seed):
                 continue
             shards.append(dict(seed=seed, layout=lay, reg=reg, depth=depth,
                                tier=tier))
+    # at most two frames in flight, from every value of the counter byte
+    for lay in (["w", "r", "wf"] if tier == "quick" else LAYOUTS):
+        for part in range(4):
+            shards.append(dict(seed=seed, layout=lay, reg="registered",
+                               depth=11 if tier == "quick" else 14,
+                               tier=tier, maxinflight=2,
+                               starts=list(range(part, 256, 4))))
     shards.append(dict(seed=seed, foreign=True, tier=tier))
     return shards
 
@@ -56,11 +68,13 @@ def run_world(params, res, monitor):
             starts = [0, 1, 2, 254, 255, rng.randrange(256)]
             if params["tier"] == "quick":
                 starts = starts[:4]
+            starts = params.get("starts") or starts
             kstat = dict(n=0, bad=0)
 
             def on_step(rec):
                 res.count("transitions")
-                res.case([params["layout"], params["reg"], rec["state"],
+                res.case([params["layout"], params["reg"],
+                          params.get("maxinflight", 3), rec["state"],
                           rec["frame"]], nontrivial=bool(rec["state"][1]))
                 res.count("action[" + str(rec["action"]) + "]")
                 if rec["ran"]:
@@ -81,8 +95,11 @@ def run_world(params, res, monitor):
                                     counter=(rec["c_before"],
                                              rec["c_after"])))
                 monitor(w, rec, res, params)
-            nstates, ntrans = dispatch.explore(w, starts, params["depth"],
-                                               res, on_step)
+            nstates, ntrans = dispatch.explore(
+                w, starts, params["depth"], res, on_step,
+                maxinflight=params.get("maxinflight", 3))
+            res.count(f"states[<={params.get('maxinflight', 3)} in flight]",
+                      nstates)
             res.count("states", nstates)
             res.count("k_replays", kstat["n"])
             res.info["states"] = nstates
@@ -113,9 +130,35 @@ def monitor22(w, rec, res, params):
             1 if rec["action"] == dispatch.TX else 0)
         if run >= 3:
             res.violation("unexplained:three-frames-without-program",
-                          "three consecutive frames passed without running "
-                          "the group's program", case=desc,
+                          "three consecutive frames were sent back to the "
+                          "bus without running the group's program",
+                          case=desc,
                           witness=dispatch.path_to(w, rec["state"]))
+        # literal reading: every frame the dispatcher handles counts
+        srun = 0 if rec["ran"] else rec["srun_before"] + 1
+        res.count(f"longest_run_seen[{min(srun, 4)}]")
+        if srun >= 3:
+            two = params.get("maxinflight", 3) == 2
+            if two or srun >= 4:
+                res.violation(
+                    "unexplained:three-frames-pass-without-program"
+                    if two else
+                    "unexplained:four-frames-pass-without-program",
+                    f"{srun} consecutive frames of the group passed the "
+                    f"dispatcher without running the group's program (at "
+                    f"most {params.get('maxinflight', 3)} frames in "
+                    f"flight): last action "
+                    f"{'TX' if rec['action'] == dispatch.TX else 'PASS'} "
+                    f"of frame index {rec['frame'][0]} at counter "
+                    f"{rec['c_before']}", case=desc,
+                    witness=dispatch.path_to(w, rec["state"]))
+            else:
+                res.violation(
+                    "three-passes-without-program-when-frames-overtake",
+                    "three consecutive frames passed the dispatcher "
+                    "without running the group's program in a history "
+                    "with three frames in flight delivered out of order",
+                    case=desc, witness=dispatch.path_to(w, rec["state"]))
     else:
         if rec["ran"]:
             res.violation("unexplained:program-ran-unregistered",
